@@ -99,7 +99,9 @@ MCStep == /\ MCNext
                         ELSE {e \in lghosts \cup (pool.limbo \ pool'.limbo) : e.id \notin {x.id : x \in pool'.limbo}}
 MCSpec == MCInit /\ [][MCStep]_<<vars, act, hist, ghosts, lghosts>>
 
-View == <<pool, blocks, head, final, owed, stale, misaligned, ghosts, lghosts>>
+(* store ids are interchangeable names: states that differ only in them are identified *)
+View == <<Contents(pool), {pool.store[i] : i \in DOMAIN pool.store}, pool.tip, pool.hbf, pool.hbl, pool.st,
+          blocks, head, final, owed, stale, misaligned, {e.tx : e \in ghosts}, {[tx |-> x.tx, block |-> x.block] : x \in lghosts}>>
 Emit == IF Len(hist) = HistLen + 1 THEN PrintT(<<"MBT", ToJson(hist)>>) ELSE TRUE
 (* TODO-KNOWN-FINDING C42-limbo-stale-block: witnesses of the strict retention property failing on *)
 (* the model; replayed on the real pool                                                             *)
